@@ -988,4 +988,68 @@ theorem c15_src_wallet_message_roundtrip (ops : CellOps R) (hl : ops.Lawful) (ht
     exact ⟨p, rfl, by rw [wm_de_eq, hsrc]; exact hd⟩
 
 end SrcWrappers
+/-! ## C06 level: addresses and headers through the regenerated message code -/
+section SrcAddr
+open TonVerif.Generated.MsgSrc TonVerif.Proofs.SrcMsg TonVerif.Proofs.SrcMsgSer TonVerif.Proofs.SrcVm
+
+/-- `c15_src_address_roundtrip` (C06 level, as used by the message classes): for every address value that has an encoding
+    (`addr_none`, `addr_extern` with `len < 512`, `val < 2^len`, `addr_std` with int8 workchain, 32-byte hash, anycast depth 1..30)
+    and is well formed (a zero-length extern address carries 0), on every builder in range with room for it, `store_address`
+    returns normally having appended exactly the encoding, and `load_address` on ANY slice that starts with those bits returns
+    the address and leaves exactly what followed. -/
+theorem c15_src_address_roundtrip (a : Addr) (hwf : AddrWF a) {c : Chunk R} (he : eAddr a = some c)
+    (b : Builder R) (hb : WFB b) (hfit : Fits b c) :
+    Vm.run (BOp.storeAddress a) b = some (app b c) ∧ c.2 = [] ∧
+    ∀ (tb : Bits) (tr : List R), (SOp.loadAddress : SOp R Addr) ⟨c.1 ++ tb, tr⟩ = (⟨tb, tr⟩, some a) := by
+  have h1 := ((appends_storeAddress a) b hb c he).1 hfit
+  have hr : c.2 = [] := by
+    have := nrefs_eAddr (R := R) a
+    rw [(enc_some_sizes he).2] at this
+    exact List.eq_nil_of_length_eq_zero (by omega)
+  refine ⟨by simp [Vm.run, h1], hr, ?_⟩
+  intro tb tr
+  have h2 := rt_addr a hwf c he tb tr
+  have h3 := ref_loadAddress (c.1 ++ tb) (c.2 ++ tr) a (tb, tr) h2
+  simpa [hr] using h3
+
+/-- `c15_src_header_roundtrip`: **every header goes through the regenerated writer and the regenerated reader unchanged**: if the
+    header has an encoding (flags, both addresses, amounts, lt / at in range) and its addresses are well formed, and the regenerated
+    `<X>MsgInfo.serialize` returns a cell, then the regenerated `CommonMsgInfo.deserialize` (tag dispatch, then the class's own
+    parser: `load_address` twice, …) on a slice of that cell returns the header — both addresses included — and leaves nothing
+    unread; followed by anything (the rest of a message), it leaves exactly that. -/
+theorem c15_src_header_roundtrip (ops : CellOps R) (ht : ops.Total) (i : Info R) (hwf : i.WF) (henc : (encInfo i).isSome)
+    {p : Vm.Built R} (h : Info_serialize ops.make i = some p) :
+    encInfo i = some (p.bits, p.refs) ∧
+    ∀ (tb : Bits) (tr : List R),
+      CommonMsgInfo_deserialize ops.view ⟨p.bits ++ tb, p.refs ++ tr⟩ = (⟨tb, tr⟩, some i) := by
+  obtain ⟨c, hc⟩ := Option.isSome_iff_exists.mp henc
+  rw [info_ser_eq ht] at h
+  obtain ⟨b, hrun, hb1, hb2, _⟩ := build_some h
+  have hfit : c.1.length ≤ 1023 ∧ c.2.length ≤ 4 := by
+    apply Classical.byContradiction
+    intro hn
+    have := ((appends_infoB i).run hc).2 hn
+    simp [Vm.run, this] at hrun
+  have hr := ((appends_infoB i).run hc).1 hfit
+  have hbc : b = ⟨c.1, c.2⟩ := by
+    simp [Vm.run, hr] at hrun; exact hrun.symm
+  have e1 : p.bits = c.1 := by rw [hb1, hbc]
+  have e2 : p.refs = c.2 := by rw [hb2, hbc]
+  refine ⟨by rw [e1, e2]; exact hc, ?_⟩
+  intro tb tr
+  rw [e1, e2, info_de_eq]
+  exact ref_loadInfo _ _ i (tb, tr) (rt_info i hwf c hc tb tr)
+
+/-- non-vacuity: the header of `m0` (anycast destination, extra currencies) -/
+example : ∃ p, Info_serialize tops.make m0.info = some p ∧
+    CommonMsgInfo_deserialize tops.view ⟨p.bits ++ [true], p.refs ++ [leaf]⟩ = (⟨[true], [leaf]⟩, some m0.info) := by
+  have henc : (encInfo m0.info).isSome := by decide +kernel
+  have hwf : m0.info.WF := by simp [m0, Info.WF, AddrWF]
+  have hs : (Message.cellOf tops (Message.infoB m0.info)).isSome = true := by decide +kernel
+  rw [← src_info_ser_eq tops tops_total] at hs
+  cases hp : Info_serialize tops.make m0.info with
+  | none => simp [hp] at hs
+  | some p => exact ⟨p, rfl, (c15_src_header_roundtrip tops tops_total m0.info hwf henc hp).2 _ _⟩
+
+end SrcAddr
 end TonVerif.Properties.C15
